@@ -13,9 +13,10 @@ def holds (s : PState) (w i : Nat) : Prop :=
 def pcRank : PC → Nat
   | .idle => 1 | .sent _ _ => 3 | .cleared _ => 5 | .computed _ => 7 | .holding _ => 9 | .exited => 0
 
-/-- progress measure: strictly decreases on every non-stutter step (other than `drop`) -/
-def pmeasure (s : PState) : Nat :=
-  10 * (s.n - s.next) + ((List.range s.W).map (fun w => pcRank (s.pc w))).sum + s.chan.length + (if s.closed then 0 else 1)
+/-- progress measure: strictly decreases on every non-stutter step (other than `drop`), provided the upstream
+returns `None` for ever from its `N`-th call on -/
+def pmeasure (N : Nat) (s : PState) : Nat :=
+  10 * (N - s.pulls) + ((List.range s.W).map (fun w => pcRank (s.pc w))).sum + s.chan.length + (if s.closed then 0 else 1)
 
 /-- takes still possible after the consumer is gone: only workers that are idle, or will become idle -/
 def takesLeft (s : PState) : Nat :=
@@ -35,6 +36,11 @@ def PC.busy : PC → Nat
   | .idle => 0
   | .exited => 0
   | _ => 1
+
+/-- 1 if the worker has left its loop -/
+def PC.ex : PC → Nat
+  | .exited => 1
+  | _ => 0
 
 /-- indicator of the predicate counted by `takesLeft` -/
 def PC.tl : PC → Nat
@@ -126,12 +132,195 @@ theorem takesLeft_eq (s : PState) : takesLeft s = ((List.range s.W).map (fun u =
 theorem allExited_iff (s : PState) : allExited s = true ↔ ∀ w, w < s.W → s.pc w = .exited := by
   simp [allExited, List.all_eq_true]
 
+/-! ### upstream answers: items and gaps -/
+
+theorem itemsBefore_succ_true {src : Nat → Bool} {k : Nat} (h : src k = true) :
+    itemsBefore src (k + 1) = itemsBefore src k + 1 := by
+  show itemsBefore src k + (if src k then 1 else 0) = _
+  rw [h]; rfl
+
+theorem itemsBefore_succ_false {src : Nat → Bool} {k : Nat} (h : src k = false) :
+    itemsBefore src (k + 1) = itemsBefore src k := by
+  show itemsBefore src k + (if src k then 1 else 0) = _
+  rw [h]; rfl
+
+theorem gapsBefore_succ_true {src : Nat → Bool} {k : Nat} (h : src k = true) :
+    gapsBefore src (k + 1) = gapsBefore src k := by
+  show gapsBefore src k + (if src k then 0 else 1) = _
+  rw [h]; rfl
+
+theorem gapsBefore_succ_false {src : Nat → Bool} {k : Nat} (h : src k = false) :
+    gapsBefore src (k + 1) = gapsBefore src k + 1 := by
+  show gapsBefore src k + (if src k then 0 else 1) = _
+  rw [h]; rfl
+
+/-- every answer is an item or a gap -/
+theorem items_add_gaps (src : Nat → Bool) (k : Nat) : itemsBefore src k + gapsBefore src k = k := by
+  induction k with
+  | zero => rfl
+  | succ k ih =>
+    cases h : src k
+    · rw [itemsBefore_succ_false h, gapsBefore_succ_false h]; omega
+    · rw [itemsBefore_succ_true h, gapsBefore_succ_true h]; omega
+
+theorem gapsBefore_mono (src : Nat → Bool) {j k : Nat} (h : j ≤ k) : gapsBefore src j ≤ gapsBefore src k := by
+  induction k with
+  | zero => have : j = 0 := by omega
+            subst this; exact Nat.le_refl _
+  | succ k ih =>
+    by_cases hj : j = k + 1
+    · subst hj; exact Nat.le_refl _
+    · have := ih (by omega)
+      cases hs : src k
+      · rw [gapsBefore_succ_false hs]; omega
+      · rw [gapsBefore_succ_true hs]; omega
+
+theorem fused_true {n k : Nat} (h : k < n) : fused n k = true := by simp [fused, h]
+theorem fused_false {n k : Nat} (h : n ≤ k) : fused n k = false := by
+  simp only [fused, decide_eq_false_iff_not]; omega
+
+theorem itemsBefore_fused (n k : Nat) : itemsBefore (fused n) k = min k n := by
+  induction k with
+  | zero => simp [itemsBefore]
+  | succ k ih =>
+    by_cases h : k < n
+    · rw [itemsBefore_succ_true (fused_true h), ih]; omega
+    · rw [itemsBefore_succ_false (fused_false (by omega)), ih]; omega
+
+theorem gapsBefore_fused (n k : Nat) : gapsBefore (fused n) k = k - n := by
+  have := items_add_gaps (fused n) k
+  rw [itemsBefore_fused] at this
+  omega
+
+/-- one answer at the front: the rest is the shifted upstream -/
+theorem itemsBefore_shift (src : Nat → Bool) (k : Nat) :
+    itemsBefore src (k + 1) = (if src 0 then 1 else 0) + itemsBefore (fun j => src (j + 1)) k := by
+  induction k with
+  | zero => simp [itemsBefore]
+  | succ k ih =>
+    cases h : src (k + 1)
+    · rw [itemsBefore_succ_false h, ih, itemsBefore_succ_false (src := fun j => src (j + 1)) h]
+    · rw [itemsBefore_succ_true h, ih, itemsBefore_succ_true (src := fun j => src (j + 1)) h]; omega
+
+theorem gapsBefore_shift (src : Nat → Bool) (k : Nat) :
+    gapsBefore src (k + 1) = (if src 0 then 0 else 1) + gapsBefore (fun j => src (j + 1)) k := by
+  induction k with
+  | zero => simp [gapsBefore]
+  | succ k ih =>
+    cases h : src (k + 1)
+    · rw [gapsBefore_succ_false h, ih, gapsBefore_succ_false (src := fun j => src (j + 1)) h]; omega
+    · rw [gapsBefore_succ_true h, ih, gapsBefore_succ_true (src := fun j => src (j + 1)) h]
+
+theorem srcOf_nil (k : Nat) : srcOf [] k = false := by simp [srcOf]
+theorem srcOf_cons_zero (e : Bool) (es : List Bool) : srcOf (e :: es) 0 = e := by simp [srcOf]
+theorem srcOf_cons_succ (e : Bool) (es : List Bool) : (fun j => srcOf (e :: es) (j + 1)) = srcOf es := by
+  funext j; simp [srcOf]
+
+theorem itemsBefore_srcOf_nil (k : Nat) : itemsBefore (srcOf []) k = 0 := by
+  induction k with
+  | zero => rfl
+  | succ k ih => rw [itemsBefore_succ_false (srcOf_nil k), ih]
+
+/-- the upstream `srcOf entries` is exhausted after `entries.length` calls -/
+theorem srcOf_exhausted (entries : List Bool) (k : Nat) (h : entries.length ≤ k) : srcOf entries k = false := by
+  unfold srcOf
+  rw [List.getD_eq_getElem?_getD, List.getElem?_eq_none h]; rfl
+
+/-- the pulls `p` at which exactly `W` gaps were consumed and not before: the items before it are what
+`gapDelivered` computes -/
+theorem gapDelivered_spec (entries : List Bool) : ∀ (W p : Nat),
+    gapsBefore (srcOf entries) p = W → (∀ k, k < p → gapsBefore (srcOf entries) k < W) →
+    itemsBefore (srcOf entries) p = gapDelivered W entries := by
+  induction entries with
+  | nil =>
+    intro W p _ _
+    rw [itemsBefore_srcOf_nil]
+    cases W <;> rfl
+  | cons e es ih =>
+    intro W p hg hmin
+    cases p with
+    | zero =>
+      have : W = 0 := by rw [← hg]; rfl
+      subst this; rfl
+    | succ p =>
+      rw [gapsBefore_shift, srcOf_cons_zero, srcOf_cons_succ] at hg
+      rw [itemsBefore_shift, srcOf_cons_zero, srcOf_cons_succ]
+      have hmin' : ∀ k, k < p → (if e = true then 0 else 1) + gapsBefore (srcOf es) k < W := by
+        intro k hk
+        have := hmin (k + 1) (by omega)
+        rw [gapsBefore_shift, srcOf_cons_zero, srcOf_cons_succ] at this
+        exact this
+      cases e with
+      | true =>
+        simp only [if_true] at hg hmin' ⊢
+        have hW : W ≠ 0 := by
+          intro e0; subst e0
+          have := hmin 0 (by omega)
+          omega
+        obtain ⟨W', rfl⟩ : ∃ W', W = W' + 1 := ⟨W - 1, by omega⟩
+        rw [ih (W' + 1) p (by omega) (fun k hk => by have := hmin' k hk; omega)]
+        show _ = gapDelivered (W' + 1) es + 1
+        omega
+      | false =>
+        simp only [Bool.false_eq_true, if_false] at hg hmin' ⊢
+        obtain ⟨W', rfl⟩ : ∃ W', W = W' + 1 := ⟨W - 1, by omega⟩
+        rw [ih W' p (by omega) (fun k hk => by have := hmin' k hk; omega)]
+        show _ = gapDelivered W' es
+        omega
+
+/-! ### exited workers -/
+
+theorem ex_idle : PC.ex .idle = 0 := rfl
+theorem ex_exited : PC.ex .exited = 1 := rfl
+theorem ex_holding (i : Nat) : PC.ex (.holding i) = 0 := rfl
+theorem ex_computed (i : Nat) : PC.ex (.computed i) = 0 := rfl
+theorem ex_cleared (i : Nat) : PC.ex (.cleared i) = 0 := rfl
+theorem ex_sent (i : Nat) (ok : Bool) : PC.ex (.sent i ok) = 0 := rfl
+
+theorem exSum_le (pc : Nat → PC) (W : Nat) : ((List.range W).map (fun u => (pc u).ex)).sum ≤ W := by
+  have := sum_range_le (fun u => (pc u).ex) 1 (fun u => by cases pc u <;> simp [PC.ex]) W
+  omega
+
+/-- a worker that has not exited keeps the count below `W` -/
+theorem exSum_lt (pc : Nat → PC) {w W : Nat} (hw : w < W) (h : pc w ≠ .exited) :
+    ((List.range W).map (fun u => (pc u).ex)).sum < W := by
+  have h1 := sum_map_setPc PC.ex pc w W .exited hw
+  have h2 := exSum_le (setPc pc w .exited) W
+  have h3 : (pc w).ex = 0 := by
+    cases hp : pc w <;> first | rfl | exact absurd hp h
+  rw [h3, ex_exited] at h1
+  omega
+
+theorem exSum_all (pc : Nat → PC) : ∀ W, (∀ u, u < W → pc u = .exited) →
+    ((List.range W).map (fun u => (pc u).ex)).sum = W := by
+  intro W
+  induction W with
+  | zero => intro _; rfl
+  | succ W ih =>
+    intro h
+    simp only [List.range_succ, List.map_append, List.sum_append, List.map_cons, List.map_nil,
+      List.sum_cons, List.sum_nil, Nat.add_zero]
+    rw [ih (fun u hu => h u (by omega)), h W (by omega)]
+    rfl
+
+/-- an update that does not change whether the worker has exited leaves the count alone -/
+theorem exSum_setPc (pc : Nat → PC) {w W : Nat} (v : PC) (hw : w < W) (h : v.ex = (pc w).ex) :
+    ((List.range W).map (fun u => (setPc pc w v u).ex)).sum = ((List.range W).map (fun u => (pc u).ex)).sum := by
+  have := sum_map_setPc PC.ex pc w W v hw
+  omega
+
 /-! ### the invariant -/
 
-structure Inv (W n : Nat) (s : PState) : Prop where
+structure Inv (W : Nat) (src : Nat → Bool) (s : PState) : Prop where
   hW : s.W = W
-  hn : s.n = n
-  next_le : s.next ≤ n
+  hsrc : s.src = src
+  next_eq : s.next = itemsBefore src s.pulls
+  /-- every `None` ended a worker of its own … -/
+  gaps_le : gapsBefore src s.pulls ≤ ((List.range W).map (fun u => (s.pc u).ex)).sum
+  /-- … and while the consumer is there nothing else ends a worker -/
+  gaps_eq : s.dropped = false → ((List.range W).map (fun u => (s.pc u).ex)).sum = gapsBefore src s.pulls
+  /-- no call of `upstream.next()` is made after the `W`-th `None` -/
+  pulls_min : ∀ k, k < s.pulls → gapsBefore src k < W
   turn_le : s.turn ≤ s.next
   held_ex : ∀ i, s.turn ≤ i → i < s.next → ∃ w, w < W ∧ (s.pc w).item = some i
   held_rng : ∀ w i, w < W → (s.pc w).item = some i → s.turn ≤ i ∧ i < s.next
@@ -148,11 +337,11 @@ structure Inv (W n : Nat) (s : PState) : Prop where
   calls_hold : ∀ w i, w < W → s.pc w = .holding i → s.calls i = 0
   calls_done : ∀ i, i < s.next → (∀ w, w < W → s.pc w ≠ .holding i) → s.calls i = 1
   closed_ : s.closed = true → (∀ w, w < W → s.pc w = .exited) ∧ s.chan = [] ∧ s.dropped = false
-  exited_ : s.dropped = false → ∀ w, w < W → s.pc w = .exited → s.next = n
 
-theorem inv_init (W n : Nat) : Inv W n (PState.init W n) := by
-  constructor <;> simp [PState.init, PC.item, PC.busy]
-  have := sum_range_le (fun _ => 0) 0 (fun _ => Nat.le_refl _) W
-  omega
+theorem inv_init (W : Nat) (src : Nat → Bool) : Inv W src (PState.init W src) := by
+  have h0 : ((List.range W).map (fun _ : Nat => 0)).sum = 0 := by
+    have := sum_range_le (fun _ => 0) 0 (fun _ => Nat.le_refl _) W
+    omega
+  constructor <;> simp [PState.init, PC.item, PC.busy, PC.ex, itemsBefore, gapsBefore, h0]
 
 end Tu
